@@ -96,6 +96,9 @@ func c15GenType(tp *core.Tape, ti int) *c15type {
 		if noname {
 			f.key = f.name // a source tag without a name: the field's own name is the key
 		}
+		// "required" on every source tag, or (fields without a json tag) on the first one only
+		firstOnly := f.required && !used["json"] && tp.Chance("reqfirst", 1, 2)
+		reqDone := false
 		var tag []string
 		for _, s := range c15Sources {
 			if used[s] {
@@ -103,8 +106,9 @@ func c15GenType(tp *core.Tape, ti int) *c15type {
 				if noname {
 					v = ""
 				}
-				if f.required {
+				if f.required && (!firstOnly || !reqDone) {
 					v += ",required"
+					reqDone = true
 				}
 				tag = append(tag, fmt.Sprintf(`%s:"%s"`, s, v))
 			}
@@ -172,6 +176,10 @@ func c15GenReq(tp *core.Tape, t *c15type, ri int) *c15req {
 					r.vals[s] = map[string]string{}
 				}
 				r.vals[s][f.key] = c15Text(f.kind, tp, ri*100+i*10+si)
+				if (f.kind == 1 || f.kind == 2) && s != "json" && tp.Chance("oddint", 1, 8) {
+					// decimal texts only: a leading zero is still decimal, prefixes and separators are errors
+					r.vals[s][f.key] = []string{"010", "08", "0x10", "1_000", "-019", "0b11"}[tp.Choose("oddintv", 6)]
+				}
 				if f.kind == 0 && s != "path" && s != "json" && tp.Chance("emptyval", 1, 6) {
 					r.vals[s][f.key] = "" // present but empty: still the value of that source
 				}
@@ -393,7 +401,18 @@ func c15Model(t *c15type, r *c15req) string {
 				continue
 			}
 		}
-		// the usual Go text rules: a number that does not fit the field's type is an error, never a wrapped value
+		// the usual Go text rules: decimal integers; a number that does not fit the field's type is an error, never a wrapped value
+		if f.kind == 1 || f.kind == 2 {
+			bits := 0
+			if f.kind == 2 {
+				bits = 64
+			}
+			n, err := strconv.ParseInt(text, 10, bits)
+			if err != nil {
+				return "ERR"
+			}
+			text = strconv.FormatInt(n, 10)
+		}
 		if f.kind == 8 {
 			if _, err := strconv.ParseInt(text, 10, 8); err != nil {
 				return "ERR"
